@@ -65,7 +65,7 @@ def one(job):
     if prior == "existing-longer":
         for target in predicted:
             t = os.path.normpath(target)
-            if t.startswith("..") or t.startswith("/"):
+            if t.startswith("..") or t.startswith("/") or t in ("", ".") or target.endswith("/"):
                 continue
             p = os.path.join(work, t)
             os.makedirs(os.path.dirname(p) or work, exist_ok=True)
@@ -165,7 +165,13 @@ def run(cases, tier, seed):
             if g and lib_ok and (not output or "{" not in output):
                 fails.append("exit status %d although the library succeeds" % o["rc"])
         jm = model.get("m%d" % i)
-        if jm is not None:
+        os_refused = jm is not None and jm.get("ok") and \
+            "err" in runmod.os_oracle({"ok": [list(w) for w in jm["writes"]]})
+        if os_refused:
+            # the model's writes include one the operating system refuses (empty path, file below a file)
+            if o["rc"] == 0:
+                fails.append("exit status 0 although one of the predicted writes cannot be performed")
+        elif jm is not None:
             if jm["ok"] != (o["rc"] == 0):
                 fails.append("model cli_run status %s, real exit status %d" % (jm["ok"], o["rc"]))
             elif jm["ok"]:
